@@ -272,6 +272,35 @@ def _panel(case, ctx):
     y = (ytr + rng.normal(0, 0.1, len(ytr))) if name in pzoo.REGRESSORS else np.array(["a", "b"])[ytr]
     est = pzoo.build(name, case["eseed"])
     tagname = "%s:%s" % (name, case["container"])
+    variant = pzoo.random_variant(np.random.default_rng([case["dseed"], 7]), est) if case["dseed"] % 3 == 0 else None
+    _orig_build = pzoo.build
+    if variant:
+        # every instance built for this case carries the same option value; options the estimator refuses for these data end the case
+        vk = variant.split("=", 1)[0]
+        vv = est.get_params(deep=False)[vk]
+        try:
+            probe = _orig_build(name, case["eseed"])
+            probe.set_params(**{vk: vv})
+            probe.fit(Xtr, y) if sup else probe.fit(Xtr)
+            (probe.predict_proba if name in pzoo.CLASSIFIERS else (probe.predict if name in pzoo.REGRESSORS else probe.transform))(Xte)
+        except Exception as e:  # noqa
+            ctx.tag("option-variant-rejected:%s:%s:%s" % (name, vk, type(e).__name__))
+            return
+        ctx.tag("option-variant")
+
+        def _build_variant(n_, seed_=0):
+            e_ = _orig_build(n_, seed_)
+            if n_ == name:
+                e_.set_params(**{vk: vv})
+            return e_
+        pzoo.build = _build_variant
+    try:
+        return _panel_body(case, ctx, name, est, tagname, sup, Xtr, Xte, y, rng, multi, cells, pos)
+    finally:
+        pzoo.build = _orig_build
+
+
+def _panel_body(case, ctx, name, est, tagname, sup, Xtr, Xte, y, rng, multi, cells, pos):
     ok, _ = _guarded(ctx, tagname, "fit.caller-data-unchanged", "purity:fit:%s:mutates-caller-data" % name, (lambda: est.fit(Xtr, y)) if sup else (lambda: est.fit(Xtr)), Xtr, y)
     if not ok:
         return
